@@ -30,7 +30,19 @@ fn lerp(a: Coord<f64>, b: Coord<f64>, t: f64) -> Coord<f64> {
 pub fn gen(rng: &mut Rng, _index: u64) -> String {
     let k = *rng.pick(&[2i64, 3, 4, 5]);
     let (p1, p2, q1, q2);
-    match rng.below(10) {
+    match rng.below(11) {
+        10 => {
+            // decimal (non-dyadic) coordinates, segments sharing an end point in every arrangement (V, chain, T):
+            // exactness of any centre / extent arithmetic is lost here, the predicates must not depend on it
+            let d = |rng: &mut Rng| Coord { x: rng.range(-30, 30) as f64 / 10.0, y: rng.range(-30, 30) as f64 / 10.0 };
+            let (a, b, c2) = (d(rng), d(rng), d(rng));
+            match rng.below(4) {
+                0 => { p1 = a; p2 = b; q1 = a; q2 = c2; }
+                1 => { p1 = a; p2 = b; q1 = b; q2 = c2; }
+                2 => { p1 = b; p2 = a; q1 = c2; q2 = a; }
+                _ => { p1 = a; p2 = b; q1 = c2; q2 = d(rng); }
+            }
+        }
         0..=4 => {
             // regime G: small grid, all coincidence classes frequent (incl. zero-length)
             p1 = grid_coord(rng, k); p2 = grid_coord(rng, k);
